@@ -33,6 +33,34 @@ fn no_deps_pat(P(x, y): P, _: i64, mut z: i64) -> i64 { z += x; z * 10 + y }
 mod m {
     pub fn in_mod(_d: &impl std::any::Any, super::P(in_mod, _): super::P, (a, b): (i64, i64)) -> i64 { in_mod * 100 + a * 10 + b }
 }
+// parameter patterns written in a `macro_rules!` body, trait (and dependency binding) named by the caller: the
+// declared parameter and the forwarded argument must be the *same identifier* — name and hygiene — whatever
+// pattern it came from (plain, `mut`, lifted single binding, generated `argN`)
+macro_rules! stamped {
+    ($Tr:ident, $f:ident, $factor:expr) => {
+        #[entrait($Tr, no_deps)]
+        fn $f(base: i64, mut extra: i64, P(inner, _): P, (x, y): (i64, i64), _: i64) -> i64 { extra += 1; $factor * (base + extra + inner + x + y) }
+    };
+}
+stamped!(Stamped2, stamped2, 2);
+stamped!(Stamped3, stamped3, 3);
+macro_rules! stamped_deps {
+    ($Tr:ident, $f:ident, $d:ident) => {
+        #[entrait($Tr)]
+        fn $f($d: &impl std::any::Any, base: i64, Q { a: renamed, .. }: Q, _: i64, (m, n): (i64, i64)) -> i64 { base * 1000 + renamed * 100 + m * 10 + n }
+    };
+}
+stamped_deps!(StampedDeps, stamped_deps, _d);
+macro_rules! stamped_mod {
+    ($Tr:ident, $m:ident, $d:ident) => {
+        #[entrait(pub $Tr)]
+        mod $m {
+            pub fn stamped_in_mod($d: &impl std::any::Any, base: i64, super::P(inner, _): super::P, _: i64) -> i64 { base * 10 + inner }
+        }
+    };
+}
+stamped_mod!(StampedMod, sm, _d);
+
 #[entrait]
 pub trait TraitPats { fn tp(&self, _: i64, b: i64) -> i64; fn tp2(&self, tp2: i64, _: i64) -> i64; }
 impl TraitPats for () { fn tp(&self, _: i64, b: i64) -> i64 { b } fn tp2(&self, tp2: i64, _: i64) -> i64 { tp2 } }
@@ -56,6 +84,10 @@ fn main() {
     same!("in_mod", m::in_mod(&app, P(1, 2), (3, 4)), app.in_mod(P(1, 2), (3, 4)));
     same!("trait.tp", ().tp(1, 2), app.tp(1, 2));
     same!("trait.tp2", ().tp2(1, 2), app.tp2(1, 2));
-    println!("C16-PROBE cases=15 failed={bad}");
+    same!("stamped2", stamped2(1, 2, P(3, 0), (4, 5), 0), app.stamped2(1, 2, P(3, 0), (4, 5), 0));
+    same!("stamped3", stamped3(1, 2, P(3, 0), (4, 5), 0), app.stamped3(1, 2, P(3, 0), (4, 5), 0));
+    same!("stamped_deps", stamped_deps(&app, 1, Q { a: 2, b: 0 }, 0, (3, 4)), app.stamped_deps(1, Q { a: 2, b: 0 }, 0, (3, 4)));
+    same!("stamped_in_mod", sm::stamped_in_mod(&app, 1, P(2, 0), 0), app.stamped_in_mod(1, P(2, 0), 0));
+    println!("C16-PROBE cases=19 failed={bad}");
     std::process::exit(if bad == 0 { 0 } else { 1 });
 }
